@@ -37,9 +37,10 @@ INTS = ["0", "1", "-1", "255", "2**31", "-2**31", "2**53-1", "2**53", "2**53+1",
 FLOATS = ["0.0", "-0.0", "1.0", "-1.5", "0.1", "3.141592653589793", "5e-324", "1e22", "1.7976931348623157e308", "-2.5e-7",
           "1e16", "123456789.125", "float('inf')", "float('-inf')"]
 STRS = ["''", "'a'", "' '", "'\\n\\t\\x00'", "'\\u00e9\\u4e2d'", "'\\U0001F600'", "'\"quoted\\\\'", "'null'", "'123'", "'true'",
-        "'[1,2]'", "'{\"a\":1}'", "'2020-01-02'", "'a,b'", "'a=1&b=2'"]
+        "'[1,2]'", "'{\"a\":1}'", "'2020-01-02'", "'a,b'", "'a=1&b=2'", "'\\ufeffx'", "'http://h/?q=1&p=2'", "'='", "'&'"]
 BOOLS = ["True", "False"]
-BYTES = ["b''", "b'abc'", "'\\u00e9\\u4e2d'.encode()", "b'\\x00\\x01'", "b'[1]'"]
+BYTES = ["b''", "b'abc'", "'\\u00e9\\u4e2d'.encode()", "b'\\x00\\x01'", "b'[1]'", "'\\ufeffabc'.encode()", "'a\\ufeff'.encode()",
+         "b'a=1&b=2'"]
 DECIMALS = ["Decimal('0')", "Decimal('1')", "Decimal('-1.5')", "Decimal('0.1')", "Decimal('123456789012345')",
             "Decimal('1234567.89012345')", "Decimal('0.000000123456789')", "Decimal('1E+7')", "Decimal('1.5E-7')",
             "Decimal('-99999.9999')", "Decimal('2.50')", "Decimal('100')", "Decimal('12345678901234.5')",
